@@ -435,6 +435,15 @@ class Gen:
     def gen_alias(self, ns):
         name = self.fresh(ns, ALIAS_NAMES)
         ty = self.gen_type(ns, allow_nullable=getattr(self.cfg, 'nullable_aliases', True))
+        if getattr(self.cfg, 'alias_bias', False) and self.t.chance(55):
+            # alias chains, preferably across namespaces
+            cands = self.visible_types(ns, (Alias,))
+            far = [a for a in cands if a.ns != ns]
+            if far and self.t.chance(60):
+                cands = far
+            if cands:
+                a = self.t.choice(cands)
+                ty = T('ref', ns=a.ns, name=a.name)
         return Alias(name=name, ns=ns, type=ty, doc=self.doc({'ns': ns}, short=True), anns=[])
 
     def field_names(self, n, taken):
@@ -501,6 +510,11 @@ class Gen:
             # self reference through a nullable or a list
             me = T('ref', ns=ns, name=owner)
             ty = T('nullable', inner=me) if t.chance(50) else T('list', item=me, args={})
+        if getattr(self.cfg, 'alias_bias', False) and t.chance(25):
+            cands = [a for a in self.visible_types(ns, (Alias,)) if not self.m.unwrap(a.type)[1]]
+            if cands:
+                a = t.choice(cands)
+                ty = T('nullable', inner=T('ref', ns=a.ns, name=a.name))
         f = Field(name=name, type=ty, default=None, doc=None, anns=[])
         inner, nullable = self.m.unwrap(ty)
         if not nullable and t.chance(35):
@@ -986,7 +1000,8 @@ class Gen:
                 self.gen_annotations(nm)
             ntypes = t.rng(1, cfg.max_types)
             for _ in range(ntypes):
-                k = t.weighted([(34, 'struct'), (26, 'union'), (16, 'alias'), (12, 'child'),
+                k = t.weighted([(34, 'struct'), (26, 'union'),
+                                (40 if getattr(cfg, 'alias_bias', False) else 16, 'alias'), (12, 'child'),
                                 (8, 'tree'), (8, 'uchild')])
                 if k == 'struct':
                     self.gen_struct(nm)
